@@ -877,6 +877,54 @@ pub fn configs(tier: Tier) -> Vec<Config> {
     out
 }
 
+/// Scale script (outside the BFS): payloads beyond 64 KiB through the compressed and the
+/// plain write path of one configuration; read-after-write and stored-stream validity.
+fn scale_script(sys: &Sys, o: &mut Outcome) -> u64 {
+    let mut steps = 0u64;
+    let r = util::catch(|| -> Result<Vec<(String, String)>, String> {
+        let w = sys.build_world(&Tree::new())?;
+        let mut out = Vec::new();
+        let sfx = sys.cfg.sfx();
+        for n in [255usize, 256, 65_535, 65_536, 70_001] {
+            for (kind, payload) in [("compressible", (0..n).map(|i| (i % 7) as u8).collect::<Vec<u8>>()), ("incompressible", crate::lzfam::norepeat(n.min(70_001), n as u32))] {
+                for (p, loc) in [(format!("big/x{}{}", n, sfx), false), (format!("big/y{}{}", n, sfx), true), (format!("big/z{}.bin", n), false)] {
+                    match w.fs.write(&p, &payload, loc) {
+                        Err(e) => out.push(("scale:write-failed".to_string(), format!("write({:?}, {} {} bytes, localized={}) failed: {}", p, n, kind, loc, e))),
+                        Ok(()) => match w.fs.read(&p, loc) {
+                            Ok(b) if b == payload => {}
+                            other => out.push(("scale:read-after-write".to_string(), format!("read({:?}) after writing {} {} bytes returned {:?}", p, n, kind, other.map(|b| b.len()).map_err(|e| e.to_string())))),
+                        },
+                    }
+                    if sys.cfg.is_compressed(&p) {
+                        if let Some(actual) = sys.actual(&p, loc) {
+                            match std::fs::read(w.roots[w.roots.len() - 1].join(norm(&actual))) {
+                                Ok(stored) => match sys.cfg.decode_stored(&stored) {
+                                    Ok(d) if d == payload => {}
+                                    Ok(_) => out.push(("scale:stored-stream-wrong-data".to_string(), format!("stored {} expands to different bytes", actual))),
+                                    Err(e) => out.push(("scale:stored-stream-invalid".to_string(), format!("stored {} ({} bytes) is not a valid compressed stream: {}", actual, stored.len(), e))),
+                                },
+                                Err(e) => out.push(("scale:stored-file-missing".to_string(), format!("no file at {} in the top layer: {}", actual, e))),
+                            }
+                        }
+                    }
+                }
+            }
+        }
+        Ok(out)
+    });
+    match r {
+        Err(p) => o.violate(format!("panic@{}:scale", p.location), format!("[{}] scale script panicked: {}", sys.cfg.name, p.message), json!({"scale_script": sys.cfg.name})),
+        Ok(Err(e)) => o.machinery(format!("scale script: {}", e)),
+        Ok(Ok(v)) => {
+            steps = 30;
+            for (sig, summary) in v {
+                o.violate(sig, format!("[{}] {}", sys.cfg.name, summary), json!({"scale_script": sys.cfg.name}));
+            }
+        }
+    }
+    steps
+}
+
 /// configurations for the filesystem half of C14: every supported game × language
 pub fn configs_c14(tier: Tier) -> Vec<Config> {
     configs(tier).into_iter().filter(|c| c.name.contains("localized d/a]") && c.lowers.len() == 3 && c.name.contains("a+d/a")).map(|mut c| {
@@ -902,6 +950,10 @@ pub fn explore(ctx: &Ctx, which: Which) -> Outcome {
     for (ci, cfg) in cfgs.into_iter().enumerate() {
         let depth = cfg.depth;
         let sys = Sys { cfg, which, base: base.join(format!("c{}", ci)) };
+        if which == Which::C12 && sys.cfg.lowers.len() == 1 {
+            let n = scale_script(&sys, &mut o);
+            cov.transitions += n;
+        }
         let rep = bfs::explore(&sys, Some(depth), None);
         cov.states += rep.states;
         cov.transitions += rep.transitions;
@@ -959,6 +1011,18 @@ pub fn explore(ctx: &Ctx, which: Which) -> Outcome {
 pub fn replay(ctx: &Ctx, which: Which, case: &Value) -> Vec<Violation> {
     if case.get("ctor").is_some() {
         return vec![];
+    }
+    if let Some(name) = case["scale_script"].as_str() {
+        let base = ctx.scratch("replay");
+        let mut o = Outcome::default();
+        for (ci, cfg) in configs(Tier::Quick).into_iter().enumerate() {
+            if cfg.name == name {
+                let sys = Sys { cfg, which, base: base.join(format!("c{}", ci)) };
+                scale_script(&sys, &mut o);
+            }
+        }
+        let _ = std::fs::remove_dir_all(&base);
+        return o.violations;
     }
     let tier = if case["tier"] == "thorough" { Tier::Thorough } else { Tier::Quick };
     let ci = case["config_index"].as_u64().unwrap_or(0) as usize;
